@@ -1185,6 +1185,51 @@ fn run_early(rounds: usize) -> (String, String, String) {
     )
 }
 
+/// `vq expirerace <attempts>`: the receiver sits in receive_timeout(3 ms) with a 500 us timer pending; another
+/// thread cancels that timer at its expiry instant plus 0..78 us (swept), so that the expiry wake-up and the
+/// cancel command are ready together. Whatever the receiver does with the timer (the cancel comes after
+/// the deadline), it must not answer None before the 3 ms have elapsed.
+fn run_expirerace(attempts: usize) -> (String, String, String) {
+    if attempts == 0 || attempts > 100_000 {
+        return ("bad-case".into(), "ok".into(), String::new())
+    }
+    let mut early_none = 0usize;
+    let mut worst = Duration::ZERO;
+    let timeout = Duration::from_millis(3);
+    let dbg = std::env::var("VERIF_DEBUG").is_ok();
+    for a in 0..attempts {
+        let mut q = EventReceiver::<u64>::default();
+        let tx = q.sender().clone();
+        let offset = Duration::from_micros((30 + (a % 60) * 3) as u64);
+        let t0 = Instant::now();
+        let id = tx.send_with_timer(1, Duration::from_micros(500));
+        let h = std::thread::spawn(move || {
+            let until = t0 + Duration::from_micros(500) + offset;
+            while Instant::now() < until {
+                std::hint::spin_loop();
+            }
+            tx.cancel_timer(id);
+            tx
+        });
+        let start = Instant::now();
+        let r = q.receive_timeout(timeout);
+        let elapsed = start.elapsed();
+        if r.is_none() && elapsed < timeout {
+            if dbg {
+                eprintln!("hit at offset {:?}", offset);
+            }
+            early_none += 1;
+            worst = worst.max(timeout - elapsed);
+        }
+        let _tx = h.join().unwrap();
+    }
+    (
+        format!("early_none={}", early_none),
+        if early_none == 0 { "ok".into() } else { format!("FAIL receive_timeout(3 ms) answered None {} times before the timeout had elapsed (up to {:?} early)", early_none, worst) },
+        "expirerace,cancel,woken,waited".into(),
+    )
+}
+
 fn run_race(kind: char) -> (String, String, String, String) {
     use message_io::util::verif::set_sync_handler;
     use std::sync::atomic::{AtomicBool, Ordering};
@@ -1406,6 +1451,11 @@ fn main() {
                 }
             }
         }
+        "gen-expirerace" => {
+            let n = arg_u64(2, 320) as usize;
+            let (i, v, t) = run_expirerace(n);
+            emit(&mut out, &format!("vq expirerace {}", n), &i, &v, &t);
+        }
         "gen-early" => {
             let rounds = arg_u64(2, 240) as usize;
             let (i, v, t) = run_early(rounds);
@@ -1434,7 +1484,12 @@ fn main() {
         }
         "run" => {
             for line in stdin_lines() {
-                if line.starts_with("vq early ") {
+                if line.starts_with("vq expirerace ") {
+                    let n = line.trim().split(' ').nth(2).and_then(|x| x.parse().ok()).unwrap_or(0);
+                    let (i, v, t) = run_expirerace(n);
+                    emit(&mut out, line.trim(), &i, &v, &t);
+                }
+                else if line.starts_with("vq early ") {
                     let n = line.trim().split(' ').nth(2).and_then(|x| x.parse().ok()).unwrap_or(0);
                     let (i, v, t) = run_early(n);
                     emit(&mut out, line.trim(), &i, &v, &t);
